@@ -158,7 +158,9 @@ def main(argv=None):
         violations.append((o, rp))
     # bounded stand-in for what the verifier could not decide (never counted as proved)
     bounded = []
-    if (open_ or unsupported or missing or P.get('always_standin') or a.tier != 'quick') and P.get('standin'):
+    # the bounded stand-in runs on EVERY run: besides standing in for undecided obligations it is the only thing that exercises
+    # code outside the verified cone (display/monitor code assumed not to raise, constructors, glue)
+    if P.get('standin'):
         bounded = run_standin(P, prop, a.repo, a.tier, seed)
         for b in bounded:
             # findings of a stand-in that are identified by a site id: known ones are reported as such, others are violations
